@@ -90,6 +90,9 @@ def gen_trial(rng, profile):
                 block.append({'f': frame0(t), 'sid': sd, 'mid': k, 'topics': T, 'bal': balv, 'body': body[0]})
             body[0] += 1; table[body[0]] = (i, k, '', sd, serial)
             block.append({'f': '//', 'sid': sd, 'mid': k, 'topics': T, 'bal': balv, 'body': body[0]})
+            if bal and rng.random() < 0.06:      # a worker shuts down and comes back (CLOSE on the wire); the splitter's ids go on, frames of slower workers are still in flight
+                body[0] += 1; table[body[0]] = (i, -3, '', sd, serial)
+                block.append({'f': '//', 'sid': sd, 'mid': -3, 'topics': [], 'bal': 0, 'body': body[0]})
             if profile == 'adv':
                 block = [m for m in block if rng.random() > 0.07]            # PUB loss
                 if rng.random() < 0.08:
@@ -110,10 +113,11 @@ def gen_trial(rng, profile):
         if rng.random() < pcall:
             for _ in range(rng.choice([1, 1, 2])):
                 ops.append({'k': 'c', 'state': None, 'prio': rng.sample(range(n), n)})
-    for _ in range(3): ops.append({'k': 'c', 'state': None, 'prio': rng.sample(range(n), n)})
+    for _ in range(3 if profile == 'adv' else nid + 4): ops.append({'k': 'c', 'state': None, 'prio': rng.sample(range(n), n)})    # well-formed feeds: enough calls to drain every common id
     return {'profile': profile, 'srcs': srcs, 'balance': bal, 'lowlat': rng.random() < 0.2, 'ops': ops, 'state_mode': state_mode,
             'ff': [rng.choice([0, 0, 0, 1, 2]) for _ in range(40)],
-            'table': {str(k): list(v) for k, v in table.items()}, 'published': published}
+            'table': {str(k): list(v) for k, v in table.items()}, 'published': published,
+            'switches': {'warn_older': rng.random() < 0.6, 'warn_newer': rng.random() < 0.6, 'debug': rng.random() < 0.15}}
 
 
 def run_impl(trial):
@@ -121,6 +125,9 @@ def run_impl(trial):
     MQ.recv/MQ.send: a new state is passed only right after a successful return, and kept until the next one)."""
     w = fakezmq.World()
     Z = fakezmq.install(w)
+    # switches documented as logging-only (read from the environment at import): every property must hold whatever they are set to
+    sw = trial.get('switches') or {}
+    Z.ZMQ_WARN_OLDER, Z.ZMQ_WARN_NEWER, Z.DEBUG_ZEROMQ = sw.get('warn_older', True), sw.get('warn_newer', True), sw.get('debug', False)
     log = []
     specs = [(f'ipc://s{i}' + '?' * s['eph'], None if s['topics'] is None else [tuple(p) for p in s['topics']]) for i, s in enumerate(trial['srcs'])]
     R = Z.ZMQReceiver(specs, 'R', message_oob=lambda m: log.append({'k': 'oob', 'i': cur[0], 'body': m[0]}), balance=trial['balance'], low_latency=trial['lowlat'])
@@ -229,7 +236,9 @@ def oracles(trial, calls):
                     if b in seen_sync: v['C02'].append(('redelivered', f'source {i}: the message published as id {mid} topic {pt!r} is delivered again, in the set returned as id {rid}'))
                     elif mid != rid: v['C02'].append(('frame-under-other-id', f'source {i}: frame published under id {mid} delivered in the set of id {rid}'))
                     seen_sync.add(b)
-            if last_id is not None and rid <= last_id: v['C02'].append(('order', f'id {rid} returned after {last_id}'))
+            if last_id is not None and rid <= last_id:
+                v['C02'].append(('order', f'id {rid} returned after {last_id}'))
+                if trial['balance']: v['C07'].append(('bal-order', f'balanced rejoin: id {rid} returned after {last_id}'))
             last_id = rid
             if trial['balance']:
                 if len(per_src) > 1: v['C07'].append(('bal-multi-source', f'set {rid} from sources {sorted(per_src)}'))
@@ -255,4 +264,16 @@ def oracles(trial, calls):
                         pubs = [T for sd, k, T in trial['published'][i] if k == rid]
                         if not pubs: v['C01'].append(('missing-source', f'set {rid} returned without source {i}, which never published {rid}'))
                         elif any(subscribed(s['topics'], t) for t in pubs[0]): v['C01'].append(('partial-set', f'set {rid}: source {i} contributes nothing'))
+
+    # C05 / C06 at a join (well-formed lossless feed, internal id counter): once everything published has been delivered and recv() has been called more often
+    # than there are ids, the LAST id common to all synchronised sources has been returned - whatever ephemeral sources delivered or withheld
+    # (C03_join_complete_multi: every common id is returned; an ephemeral source holds a return only while one of its blocks is partly delivered)
+    sync = [i for i, s in enumerate(srcs) if s['eph'] == 0]
+    if trial['profile'] == 'wf' and not trial['balance'] and trial.get('state_mode') == 'none' and sync and not any(o['k'] == 'exc' for outs in calls for o in outs):
+        common = set.intersection(*[{k for sd, k, T in trial['published'][i]} for i in sync])
+        rets = [o['id'] for outs in calls for o in outs if o['k'] == 'ret']
+        if common and max(common) not in rets:
+            what = (f"everything was delivered and recv() called {sum(1 for op in trial['ops'] if op['k'] == 'c')} times, but id {max(common)} (published by every synchronised source "
+                    f"{sync}) was never returned; returned ids {rets}; ephemeral sources {[i for i, s in enumerate(srcs) if s['eph']]}")
+            (v['C05'] if any(s['eph'] for s in srcs) else v['C06']).append(('sync-stream-held-up', what))
     return v
